@@ -340,6 +340,8 @@ fn viz_hook<S: Clone + Eq + Hash + Debug + Send + Sync + 'static>(ctx: &MonCtx<S
             }
         };
         ctx.bump("c20_renderings", 1);
+        // progress mark of the hang watchdog: as_graphviz has returned (the parse below is the harness' own time)
+        crate::campaign::tick();
         // the ids declared by a rendering that hides nothing: what 'hidden by the configuration' can refer to
         if cfg.show_deleted && full_ids.is_none() {
             if let Ok(d) = parse_dot(&text) { full_ids = Some(d.nodes.iter().map(|n| n.0.clone()).collect()); }
